@@ -1,0 +1,157 @@
+//! Verification hooks (only built with `--cfg woodpile_verif`): entry
+//! points that run the very same encoder / decoder state machines as
+//! [`crate::Encoder`] and [`crate::Decoder`], but with caller-chosen
+//! (tiny) chunk size limits, so that small-scope enumeration reaches
+//! every chunk boundary interaction.
+use std::num::NonZeroUsize;
+
+use crate::decoder::DecoderState;
+use crate::encoder::EncoderState;
+use crate::DecodingError;
+use crate::Parameters;
+use owning_iovec::AnchoredSlice;
+use owning_iovec::ConsumingIovec;
+use owning_iovec::OwningIovec;
+
+fn params(max_initial: usize, max_subsequent: usize) -> Parameters {
+    Parameters {
+        max_initial_size: NonZeroUsize::new(max_initial).expect("non-zero limit"),
+        max_subsequent_size: NonZeroUsize::new(max_subsequent).expect("non-zero limit"),
+    }
+}
+
+/// An [`crate::Encoder`] with caller-chosen chunk size limits.
+pub struct LimitEncoder<'this> {
+    state: EncoderState,
+    iovec: OwningIovec<'this>,
+    params: Parameters,
+}
+
+impl<'this> LimitEncoder<'this> {
+    /// See [`crate::Encoder::new`].
+    #[must_use]
+    pub fn new(max_initial: usize, max_subsequent: usize) -> Self {
+        let params = params(max_initial, max_subsequent);
+        let mut iovec = OwningIovec::new();
+        LimitEncoder {
+            state: EncoderState::new(&mut iovec, params),
+            iovec,
+            params,
+        }
+    }
+
+    /// See [`crate::Encoder::consumer`].
+    #[must_use]
+    pub fn consumer(&mut self) -> ConsumingIovec<'_> {
+        self.iovec.consumer()
+    }
+
+    /// See [`crate::Encoder::encode`].
+    pub fn encode(&mut self, data: &'this [u8]) {
+        let state = std::mem::take(&mut self.state);
+        self.state = state.encode_borrow(&mut self.iovec, self.params, data);
+    }
+
+    /// See [`crate::Encoder::encode_copy`].
+    pub fn encode_copy(&mut self, data: &[u8]) {
+        let state = std::mem::take(&mut self.state);
+        self.state = state.encode_copy(&mut self.iovec, self.params, data);
+    }
+
+    /// See [`crate::Encoder::encode_anchored`].
+    pub fn encode_anchored(&mut self, data: AnchoredSlice) {
+        let (_, slice, anchor) = unsafe { data.components() };
+
+        if slice.is_empty() {
+            return;
+        }
+
+        self.encode(slice);
+        self.iovec.push_anchor(anchor);
+    }
+
+    /// See [`crate::Encoder::read_n`].
+    pub fn read_n(
+        &mut self,
+        reader: impl std::io::Read,
+        count: usize,
+        attempts: NonZeroUsize,
+    ) -> std::io::Result<AnchoredSlice> {
+        self.iovec.arena().read_n(reader, count, attempts)
+    }
+
+    /// See [`crate::Encoder::finish`].
+    #[must_use]
+    pub fn finish(mut self) -> OwningIovec<'this> {
+        self.state.terminate(&mut self.iovec);
+        self.iovec
+    }
+}
+
+/// A [`crate::Decoder`] with caller-chosen chunk size limits.
+pub struct LimitDecoder<'this> {
+    state: DecoderState,
+    iovec: OwningIovec<'this>,
+    params: Parameters,
+}
+
+impl<'this> LimitDecoder<'this> {
+    /// See [`crate::Decoder::new`].
+    #[must_use]
+    pub fn new(max_initial: usize, max_subsequent: usize) -> Self {
+        LimitDecoder {
+            state: DecoderState::new(),
+            iovec: OwningIovec::new(),
+            params: params(max_initial, max_subsequent),
+        }
+    }
+
+    /// See [`crate::Decoder::consumer`].
+    #[must_use]
+    pub fn consumer(&mut self) -> ConsumingIovec<'_> {
+        self.iovec.consumer()
+    }
+
+    /// See [`crate::Decoder::decode`].
+    pub fn decode(&mut self, data: &'this [u8]) -> Result<(), DecodingError> {
+        let state = std::mem::take(&mut self.state);
+        self.state = state.decode_borrow(&mut self.iovec, self.params, data)?;
+        Ok(())
+    }
+
+    /// See [`crate::Decoder::decode_copy`].
+    pub fn decode_copy(&mut self, data: &[u8]) -> Result<(), DecodingError> {
+        let state = std::mem::take(&mut self.state);
+        self.state = state.decode_copy(&mut self.iovec, self.params, data)?;
+        Ok(())
+    }
+
+    /// See [`crate::Decoder::decode_anchored`].
+    pub fn decode_anchored(&mut self, data: AnchoredSlice) -> Result<(), DecodingError> {
+        let (_, slice, anchor) = unsafe { data.components() };
+
+        if slice.is_empty() {
+            return Ok(());
+        }
+
+        let ret = self.decode(slice);
+        self.iovec.push_anchor(anchor);
+        ret
+    }
+
+    /// See [`crate::Decoder::read_n`].
+    pub fn read_n(
+        &mut self,
+        reader: impl std::io::Read,
+        count: usize,
+        attempts: NonZeroUsize,
+    ) -> std::io::Result<AnchoredSlice> {
+        self.iovec.arena().read_n(reader, count, attempts)
+    }
+
+    /// See [`crate::Decoder::finish`].
+    pub fn finish(self) -> Result<OwningIovec<'this>, DecodingError> {
+        self.state.terminate()?;
+        Ok(self.iovec)
+    }
+}
